@@ -8,6 +8,17 @@ ALL = [f"C{i:02d}" for i in range(1, 21)]
 
 # pid -> (category, technique, text, note, design_ref)
 CHECKS = {
+ "C01": ("model_checking",
+         "TLC-evaluated reference semantics (DjcSemantics.tla) + exhaustive page enumeration (MC_Djc.tla) replayed on the real library + TLC validation of recorded renders of random programs",
+         "An explicit TLA+ reference semantics of component programs (slot rule, fill closures, lexical owner, is_filled, required, "
+         "scoping per mode) is the oracle. TLC enumerates every page up to a node bound over a component library containing every slot "
+         "feature (x2 context modes), checks theorems of the semantics, and exports each page with its expected token stream; every one is "
+         "rendered by the real library and compared. Seeded random libraries/pages (depth 3-4) are rendered as plain tags, through the dynamic "
+         "component and through Component.render(slots=) and the observations validated by TLC against the same semantics. Disagreements are "
+         "accepted only if they equal what a named, listed deviation of the specification predicts (KNOWN-FINDING).",
+         "Bounded: exhaustive to 3 (quick) / 4 (thorough) page nodes over a fixed 4-component library; beyond that sampled. Well-formed programs "
+         "only; constructs whose outcome the property does not determine are flagged as zones by the specification and skipped.",
+         "§3, §4 C01"),
  "C18": ("model_checking",
          "TLC exhaustive state graph of LRUCache/TemplateCache + transition replay + TLC trace validation",
          "TLC enumerates the complete state graph of the LRU specification for every cache size and checks "
